@@ -31,6 +31,7 @@ def main():
     ap.add_argument("--repo", default="/repo")
     ap.add_argument("--only", default="")
     ap.add_argument("--tier", default="quick")
+    ap.add_argument("--report-only", action="store_true", help="only regenerate seeded/RESULTS.md from seeded/results.json")
     a = ap.parse_args()
     sdir = os.path.join(HERE, "seeded")
     ids = sorted(d for d in os.listdir(sdir) if os.path.isfile(os.path.join(sdir, d, "patch.diff")))
@@ -39,6 +40,8 @@ def main():
     rpath = os.path.join(sdir, "results.json")
     results = json.load(open(rpath)) if os.path.exists(rpath) else {}
     env = {"VERIF_REPO": a.repo} if a.repo != "/repo" else {}
+    if a.report_only:
+        ids = []
     for sid in ids:
         meta = json.load(open(os.path.join(sdir, sid, "meta.json")))
         props = meta.get("check_properties") or [meta["property"]]
@@ -67,7 +70,15 @@ def main():
         results[sid] = res
         print(sid, "CAUGHT" if res["caught"] else "MISSED", {p: c["violations"][:2] for p, c in res["checks"].items()}, flush=True)
         json.dump(results, open(rpath, "w"), indent=1)
-    lines = ["# Seeded changes vs. checks", "", "| id | property | change | caught by | signatures |", "|---|---|---|---|---|"]
+    n = len(results)
+    n_caught = sum(1 for r in results.values() if r.get("caught"))
+    n_input = sum(1 for r in results.values() if r.get("caught") and any(c.get("with_failing_input") for c in r["checks"].values()))
+    lines = ["# Seeded changes vs. checks", "",
+             f"{n} seeded changes (each compiles, passes the existing tests of the touched crates and comes with a demonstration that fails with it "
+             f"and passes without it; see `seeded/<id>/`). Each was applied to a scratch worktree and `./check <property> --tier quick` was run "
+             f"against it: **{n_caught} caught** ({n_input} with a concrete failing input / history as replay, {n_caught - n_input} through a broken proof obligation "
+             f"only: `no-failing-input-found`), **{n - n_caught} missed**.", "",
+             "| id | property | change | caught by | signatures |", "|---|---|---|---|---|"]
     for sid in sorted(results):
         r = results[sid]
         if "error" in r:
